@@ -23,11 +23,31 @@ rm -f "$ROOT/.scratch/build.$$.log"
 # generous hard limits; the checks stop by themselves at their soft deadline (exit 0, exhaustive:false)
 if [ "$TIER" = "thorough" ]; then ulimit -v 41943040 2>/dev/null || true; else ulimit -v 12582912 2>/dev/null || true; fi
 LOG="$ROOT/.scratch/run.$$.log"
+# Hard limit, far above the soft deadline at which a check stops by itself (quick 5 min, thorough 40 min):
+# a check that is still running then is blocked. SIGQUIT makes the Go runtime print every goroutine.
+HARD=1500; [ "$TIER" = "thorough" ] && HARD=6000
+HARD="${VERIF_HARD_TIMEOUT_S:-$HARD}"
 if [ "$TIER" = "--replay" ]; then
-  "$BIN" "$ID" --replay "${2:?replay file}" </dev/null 2>&1 | tee "$LOG"; rc=${PIPESTATUS[0]}
+  timeout -s QUIT -k 20 "$HARD" "$BIN" "$ID" --replay "${2:?replay file}" </dev/null 2>&1 | tee "$LOG"; rc=${PIPESTATUS[0]}
 else
   # standard input is closed off: a library that starts reading it (a "-" path convention) must not block the check
-  "$BIN" "$ID" "$TIER" </dev/null 2>&1 | tee "$LOG"; rc=${PIPESTATUS[0]}
+  timeout -s QUIT -k 20 "$HARD" "$BIN" "$ID" "$TIER" </dev/null 2>&1 | tee "$LOG"; rc=${PIPESTATUS[0]}
+fi
+# Stopped by the hard limit: if some goroutine is parked on a lock taken INSIDE biostuff code (the harness
+# shares no lock with the library), library calls block each other forever: a violation, with the goroutine
+# dump as its replay artefact. Anything else that hangs is a harness failure (exit 2).
+if grep -q '^SIGQUIT: quit' "$LOG" 2>/dev/null; then
+  blocked=$(awk '/^goroutine [0-9]+ \[(sync\.Mutex\.Lock|sync\.RWMutex\.(R)?Lock|semacquire|sync\.WaitGroup\.Wait|chan (send|receive)|select)/{g=$0; inlib=0; next} /^$/{if(g!="" && inlib){print g; exit} g=""} g!="" && /\/repo\//{inlib=1}' "$LOG")
+  if [ -n "$blocked" ]; then
+    RDIR="${VERIF_EVIDENCE_DIR:+$VERIF_EVIDENCE_DIR/replays}"; RDIR="${RDIR:-$ROOT/replays}"; mkdir -p "$RDIR"
+    CR="$RDIR/$ID-blocked-$(date +%s).log"; cp "$LOG" "$CR"
+    echo "VIOLATION property=$ID replay=$CR"
+    echo "  the check was still running after ${HARD}s with a goroutine parked inside biostuff code: $blocked"
+    rc=1
+  else
+    echo "HARNESS-ERROR property=$ID: the check did not finish within ${HARD}s and no goroutine is blocked inside biostuff code"
+    rc=2
+  fi
 fi
 # A fatal Go runtime error (stack overflow, out of memory, concurrent map access) cannot be recovered
 # inside the process. If the goroutine that died was executing biostuff code (a /repo/ frame in the first
